@@ -219,7 +219,7 @@ Path: {self.root_fingerprint.hex()}:{self.root_path}
 
     def serialize(self):
         return serialize_key_value(
-            PSBT_GLOBAL_XPUB + self.raw_serialize(), self.raw_path
+            PSBT_GLOBAL_XPUB + self._serialize(self.pub_version), self.raw_path
         )
 
     def is_ancestor(self, named_pubkey):
